@@ -30,7 +30,7 @@ class A:
 
     def __init__(self, ret=None, requires=None, ensures=None, decreases=None, spec_raw=None, loops=None, closures=None,
                  body_begin=None, body_end=None, arm_begin=None, arm_end=None, after=None, before=None, attrs=None,
-                 rewrites=None, props=(), external_body=False, note=None, params_mut=None, no_canary=False, arm_rewrites=None, stub=False, arm_replace=None, method_table=None, ret_type=None, mcalls=None):
+                 rewrites=None, props=(), external_body=False, note=None, params_mut=None, no_canary=False, arm_rewrites=None, stub=False, arm_replace=None, method_table=None, ret_type=None, mcalls=None, closure_drop=None):
         self.ret = ret                      # name for the return value
         self.requires = requires or []      # list of (name, text)
         self.ensures = ensures or []        # list of (name, text)
@@ -51,6 +51,7 @@ class A:
         self.note = note
         self.no_canary = no_canary
         self.ret_type = ret_type              # the return type the contract was written for (signature-change detection)
+        self.closure_drop = closure_drop or {}   # k -> (expression text, reason): the k-th closure (source order) is NOT verified: replaced by a named external function
         self.mcalls = mcalls                  # method name -> trampoline, rewritten IN PLACE call by call (positional; composes with anchors); R2m
         self.method_table = method_table      # method name -> trampoline: the body is mechanically rewritten (vgen.mcall); R2m
         self.arm_replace = arm_replace or {}     # pattern -> (new body text, reason): the arm's body is NOT verified (dropped, replaced by a trampoline call)
@@ -752,6 +753,15 @@ def _emit_item(unit, g, src, it, iid, label, a, fnq, emit, canary, spec):
                     em.replace_toks(blo, bhi, new_body)
                     rw_applied.append(dict(item=label, old=None, new=new_body, count=1, positions=[(blo, bhi)],
                                            reason='R2m: std/chrono method calls mechanically rewritten into trampoline calls: ' + ', '.join(f'{m} x{c}' for m, c in counts)))
+        if a.closure_drop and not a.external_body:
+            blo, bhi = it.body_open + 1, src.br[it.body_open]
+            cls_ = rscan.find_closures(src.toks, src.br, blo, bhi)
+            for kidx, (new, reason) in a.closure_drop.items():
+                if kidx >= len(cls_):
+                    raise LostAnchor(f'{fnq}: closure #{kidx} not found (closure drop)')
+                c_ = cls_[kidx]
+                em.replace_toks(c_['bar1'], c_['body'][1], new)
+                rw_applied.append(dict(item=label + f' closure #{kidx}', old=None, new=new, reason='CLOSURE BODY DROPPED: ' + reason, count=1, positions=[(c_['bar1'], c_['body'][1])]))
         if a.mcalls and not a.external_body:
             from . import mcall
             blo, bhi = it.body_open + 1, src.br[it.body_open]
